@@ -7,7 +7,7 @@ from ..gen import J, JI
 from .c12 import params_of, _cmp
 
 PROP = "C15"
-MONITORS = ("WF",)
+MONITORS = ("WF", "FORM")
 HOSTILE = ('special',)
 ANCHORS = [("utils/linalg.py", "invert_diagonal"), ("measure.py", "GaussianDiagMeasure.invert_lambda"),
            ("pdf.py", "GaussianDiagPDF.__post_init__"),
